@@ -18,7 +18,7 @@ def stream_lines(writes):
     return lines, buf
 
 
-def run_real(k0_ms, events, horizon_ms, tie_timeout_first, send_limit=65536, due_first=False):
+def run_real(k0_ms, events, horizon_ms, tie_timeout_first, send_limit=65536, due_first=False, slow=None):
     """events: list of (t_ms, ('p', msg) | ('pill', k_ms) | ('k', k_ms) | ('stop',)). Returns [(t_ms, line)]."""
     import lightstreamer_adapter.server as S
     # simultaneous events: `due_first` lets a producer whose time has come run BEFORE the writer's next operation (the writer
@@ -27,6 +27,8 @@ def run_real(k0_ms, events, horizon_ms, tie_timeout_first, send_limit=65536, due
     sched.wake_due = due_first
     sock = shim.Socket()
     sock.send_limit = send_limit
+    if slow:
+        sock.slow_write_at, sock.slow_delay = slow[0], slow[1] / 1000      # a write the slowly reading peer takes that long to accept
     saved = shim.install(sched, sock)
     try:
         class Srv:
@@ -198,6 +200,26 @@ def stream(tier):
         oracle(res, k0, events, horizon, out, tie, limit)
         if i < 3:
             res.sample({"k0_ms": k0, "events": events, "horizon_ms": horizon, "written": out[:10]})
+    # a peer that reads slowly: one write takes longer than the keepalive interval to be accepted (no model comparison: the
+    # timed model writes instantaneously) — everything submitted must still reach the wire, in order, and the writer survive
+    for i in range({"quick": 60, "search": 150, "thorough": 1500}[tier]):
+        k0, events, horizon = gen_history(R)
+        puts = [a[1] for t, a in events if a[0] == "p"]
+        if not puts or any(a[0] == "stop" for t, a in events):
+            continue
+        delay = R.choice([300, 1200, 2600, 11000])
+        slow = (R.randrange(1, len(puts) + 1), delay)
+        writes, srv, errors = run_real(k0, events, horizon + delay + 30000, False, 65536, False, slow)
+        out, rest = stream_lines(writes)
+        res.traces += 1
+        res.distribution["slow_write_runs"] += 1
+        inp = {"k0_ms": k0, "events": events, "slow_write": {"index": slow[0], "takes_ms": delay}}
+        if errors or srv.exc or srv.io:
+            res.violation("sender:thread-died", "a write that takes %d ms kills the writer thread: %r %r %r" % (delay, errors, srv.exc, srv.io), inp)
+        msgs = [l for t, l in out if l != "KEEPALIVE\r\n"]
+        if msgs != [p + "\r\n" for p in puts]:
+            res.violation("sender:not-transparent", "after a write that took %d ms the lines written %r differ from the messages submitted %r" % (
+                delay, msgs[:5], puts[:5]), inp)
     model = C.run_driver(ops)
     for op, m, i2 in zip(ops, model, impl):
         res.evaluations += 1
